@@ -52,22 +52,25 @@ func createSegment(name string, opt Options) (err error) {
 		if err == nil {
 			err = os.Rename(tmp, name)
 		}
+		if err == nil {
+			verifPoint("create:renamed", name, opt.SegmentSize)
+		}
 		if err != nil {
 			_ = os.Remove(tmp)
 		}
 	}()
-	verifPoint("create:created", name)
+	verifPoint("create:created", tmp)
 	size := int64(opt.SegmentSize)
 	if err = f.Truncate(size); err != nil {
 		return
 	}
-	verifPoint("create:truncated", name, opt.SegmentSize)
+	verifPoint("create:truncated", tmp, opt.SegmentSize)
 	if _, err = f.WriteAt(make([]byte, 16), size-16); err != nil {
 		return
 	}
-	verifPoint("create:zeroed", name)
+	verifPoint("create:zeroed", tmp)
 	err = f.Sync()
-	verifPoint("create:synced", name)
+	verifPoint("create:synced", tmp)
 	return
 }
 
